@@ -50,10 +50,10 @@ def capacity_cases(rnd, quick):
 def loss_cases(rnd, quick):
     """exactly L and L+1 data fragments missing"""
     scns = []
-    for _ in range(60 if quick else 1500):
+    for _ in range(60 if quick else 600):
         sz = rnd.choice([40, 48, 68, 100, 128, 200, 256, 17, 8])
         blk = 256
-        extra = rnd.choice([256, 512, 768, 1024, 1536, 2048, 3072]) if quick else rnd.choice([256, 1024, 4096, 16384, 65536])
+        extra = rnd.choice([256, 512, 768, 1024, 1536, 2048, 3072]) if quick else rnd.choice([256, 1024, 2048, 4096, 4096, 6144] + ([8192] if rnd.random() < 0.1 else []))   # the extracted model needs ~l^3 steps: capacities up to ~300
         slot = session.DRO + extra
         L = session.max_l(slot, sz)
         room = (slot - session.DRO) // sz
